@@ -4,7 +4,6 @@ import (
 	"context"
 	"fmt"
 	"math/rand/v2"
-	"os"
 	"sort"
 	"strings"
 	"time"
@@ -59,18 +58,8 @@ func (p *planner) push(cmd command.Command) {
 		panic(err)
 	}
 	// the scratch machine only steers the generator; a failure here must not stop the run
-	before := p.cur()
-	res, _ := p.sm.Apply(context.Background(), p.idx, dec)
-	if debugGen && res.Rejected && dec.Kind == command.KindUpsertSlotAssignmentAndTask && dec.Assignment != nil && dec.Task != nil {
-		st := before.Clone()
-		st.Slots = append(st.Slots, *dec.Assignment)
-		st.Tasks = append(st.Tasks, *dec.Task)
-		st.Normalize()
-		fmt.Fprintln(os.Stderr, "DBG", res.Reason, st.Validate(), len(before.Slots), len(before.Tasks))
-	}
+	_, _ = p.sm.Apply(context.Background(), p.idx, dec)
 }
-
-var debugGen = os.Getenv("C18_DEBUG") != ""
 
 // expected draws the ExpectedRevision guard: absent, current, or stale.
 func (p *planner) expected() *uint64 {
@@ -508,7 +497,7 @@ func (p *planner) assignAndTask() command.Command {
 	if vh.Chance(r, 0.5) {
 		t.ParticipantProgress = progressFor(sortedU64(peers))
 	}
-	switch r.IntN(12) {
+	switch r.IntN(26) {
 	case 0:
 		t.SlotID = slot%uint32(sc) + 1 // slot mismatch
 	case 1:
